@@ -209,7 +209,7 @@ pub fn run(rep: &Report) -> i32 {
     let fresh = |t: &str| seen.lock().unwrap().insert(crate::report::fxhash(t.as_bytes()));
     let fresh = &fresh;
     let layouts = [Layout::Pretty, Layout::PrettyCrlf, Layout::Tabs, Layout::LineComments, Layout::TokenPerLine, Layout::TokenPerLineCrlf, Layout::OneLine, Layout::Comments, Layout::NonAsciiComments, Layout::CrOnly];
-    rep.set("bounds", json!({"layouts": layouts.iter().map(|l| format!("{l:?}")).collect::<Vec<_>>(), "variants": ["as rendered", "without the trailing line terminator", "with a leading non-ASCII comment line", "with a lone carriage return appended"], "sources": ["all M_ast near misses of the C04 bases", "single-token edits of the kitchen-sink programs and the shipped examples, LF and CRLF"]}));
+    rep.set("bounds", json!({"layouts": layouts.iter().map(|l| format!("{l:?}")).collect::<Vec<_>>(), "variants": ["as rendered", "without the trailing line terminator", "with a leading non-ASCII comment line", "with a lone carriage return appended", "below two empty lines", "below an empty CRLF line"], "sources": ["all M_ast near misses of the C04 bases", "single-token edits of the kitchen-sink programs and the shipped examples, LF and CRLF"]}));
     // (1) near misses in every line structure
     let bases = c04::base_programs(quick);
     par_for(&bases, rep, 1, |bi, (name, base)| {
@@ -227,7 +227,7 @@ pub fn run(rep: &Report) -> i32 {
                     continue;
                 }
                 let text = m.render_with(RenderOpts::default(), *l);
-                let variants = [text.clone(), text.trim_end_matches(['\n', '\r']).to_string(), format!("// é嗨 comment before the error ü\n{text}"), format!("{text}\r")];
+                let variants = [text.clone(), text.trim_end_matches(['\n', '\r']).to_string(), format!("// é嗨 comment before the error ü\n{text}"), format!("{text}\r"), format!("\n\n{text}"), format!("\r\n{text}")];
                 for (vi, t) in variants.iter().enumerate() {
                     if vi > 0 && (mi + vi) % 3 != 0 {
                         continue;
